@@ -4,9 +4,10 @@ Model of /repo/collections/zset (C11), in two layers.  Core-only.
 Layer L — `zskiplist.go` abstracted to its content: the skip list *is* the list of its nodes in
 level-0 order; every exported `ZSkipList` method is specified on that list the way its level-0 walk
 proceeds (`takeWhile`/`dropWhile` with the code's comparison, not a filter: nothing here assumes the
-list is sorted).  The tower/span/pointer structure (random levels, span arithmetic, backward links) is
-NOT in this layer: it is modelled-not-verified and tied by the correspondence run, which compares every
-L function directly against the corresponding `ZSkipList` method, and by the invariant probe (hook H6).
+list is sorted).  The tower/span/pointer structure (tower heights, span arithmetic, backward links) is not
+in this layer: it is the structural model S (Model/C11S.lean), which is proved to keep its invariant and
+to refine every function of L for every tower height (Props/C11.lean, block "the structural skip
+list S"); the driver runs S and cross-checks L on its abstraction.
 
 Layer Z — `zset.go`, structurally, on top of L: `Add` (delete + re-insert on a score change), `Remove`,
 index normalisation of `GetRange`/`RemoveRangeByRank` (negative indices, clamping), `Count` via the two
